@@ -1,44 +1,34 @@
-// Command zvh is the Go side of the verification machinery (ties T2 and S of DESIGN.md).
+// Package hlib is the shared library of the Go side of the verification machinery (ties T2 and S of DESIGN.md).
 // It is built against /repo's current working tree (replace => /repo, -tags verif), runs
 // the real code and the Lean model's executable definitions (through the compiled driver)
 // on the same generated inputs, and writes a result file that bin/check turns into
 // evidence, KNOWN-FINDING and VIOLATION lines.
 //
-//	zvh <cXX> -tier quick|thorough -seed N -out result.json -driver /path/to/zdriver
-//	zvh <cXX> -replay replay.json -out result.json -driver ...
-package main
+//	zvh-cXX -tier quick|thorough -seed N -out result.json -driver /path/to/zdriver_CXX
+//	zvh-cXX -replay replay.json -out result.json -driver ...
+package hlib
 
 import (
 	"flag"
 	"fmt"
 	"os"
-	"sort"
 	"strings"
 	"time"
 )
 
-var registry = map[string]func(*Ctx){}
-
-func register(id string, fn func(*Ctx)) { registry[strings.ToLower(id)] = fn }
-
-func main() {
-	if len(os.Args) < 2 {
-		usage()
-	}
-	id := strings.ToLower(os.Args[1])
-	fn, ok := registry[id]
-	if !ok {
-		usage()
-	}
+// Main is the entry point of a per-property harness binary (harness/cXX/main.go):
+//
+//	func main() { hlib.Main("C16", run) }
+func Main(id string, fn func(*Ctx)) {
 	fs := flag.NewFlagSet(id, flag.ExitOnError)
 	tier := fs.String("tier", "quick", "quick|thorough")
 	seed := fs.Int64("seed", 1, "PRNG seed")
 	out := fs.String("out", "", "result file")
-	driver := fs.String("driver", "/verif/lean/.lake/build/bin/zdriver", "compiled Lean driver")
+	driver := fs.String("driver", "/verif/lean/.lake/build/bin/zdriver_"+strings.ToUpper(id), "compiled Lean driver")
 	replay := fs.String("replay", "", "replay file: re-run exactly this case")
 	corpus := fs.String("corpus", "", "corpus directory of past minimized failures (run first)")
 	only := fs.String("only", "", "comma-separated sub-checks to run (default all)")
-	fs.Parse(os.Args[2:])
+	fs.Parse(os.Args[1:])
 	c := newCtx(strings.ToUpper(id), *tier, *seed, *driver)
 	c.Only = map[string]bool{}
 	for _, s := range strings.Split(*only, ",") {
@@ -57,7 +47,7 @@ func main() {
 	func() {
 		defer func() {
 			if r := recover(); r != nil {
-				c.Fail("harness-panic", c.Prop+":harness-panic", fmt.Sprintf("harness panicked: %v", r), map[string]any{"panic": fmt.Sprint(r), "stack": stack()})
+				c.Fail("harness-panic", c.Prop+":harness-panic", fmt.Sprintf("harness panicked: %v", r), map[string]any{"panic": fmt.Sprint(r), "stack": Stack()})
 			}
 		}()
 		fn(c)
@@ -75,14 +65,4 @@ func main() {
 	for _, f := range c.Res.Failures {
 		fmt.Printf("  FAIL kind=%s key=%s %s\n", f.Kind, f.Key, f.What)
 	}
-}
-
-func usage() {
-	var ids []string
-	for k := range registry {
-		ids = append(ids, k)
-	}
-	sort.Strings(ids)
-	fmt.Fprintf(os.Stderr, "usage: zvh <%s> [flags]\n", strings.Join(ids, "|"))
-	os.Exit(2)
 }
